@@ -47,6 +47,7 @@ theorem applyEffect_esc (s s' : State) (e : Effect) (k : Nat × String) (h : app
         rw [getN_setN_other _ _ _ _ this]; simp [hk]
     · cases h
   all_goals first
+    | (cases h; done)
     | (injection h with h; subst h; simp [escDelta, updBridge_esc]; done)
     | (injection h with h; subst h; split <;> simp [escDelta])
     | (split at h
